@@ -244,6 +244,10 @@ fn oracle(c: &Case, ctx: &mut Ctx) -> CaseResult {
 					if view == "harness-tip" {
 						return Err(Failure::new("harness-error", detail));
 					}
+					if view == "pursued-claims/dropped-by-second" && dev_tolerate("claimdrop") {
+						outcome_labels.push(format!("dev-tolerated:{}", view));
+						break;
+					}
 					if view == "pursued-claims/dropped-by-first" {
 						// which claims did the replica that saw more stop pursuing?
 						let missing: Vec<&String> = s.pursued.iter().filter(|p| !s0.pursued.contains(p)).collect();
